@@ -197,7 +197,7 @@ def nucTempTerms(b, nuc):
 
 def blockNucTemp(b, nuc):
     nvt, nv = nucTempTerms(b, nuc)
-    return nvt / nv if nv > 0 else 0.0
+    return nvt / nv if nv != 0 else 0.0  # the defining ratio whenever it exists (net n*V may be negative for an overlapped bond)
 
 
 def eligible(b, validTypes):
@@ -412,8 +412,8 @@ def repValues(case, cls, cands, members, param):
         terms = [nucTempTerms(b, n) for b in cands]
         nvt = sum(wi * t[0] for wi, t in zip(w, terms))
         nv = sum(wi * t[1] for wi, t in zip(w, terms))
-        out["temp"][n] = nvt / nv if nv > 0 else 0.0
-        ts = [t[0] / t[1] for t in terms if t[1] > 0]
+        out["temp"][n] = nvt / nv if nv != 0 else 0.0  # the defining ratio whenever it exists (the code tests == 0.0)
+        ts = [t[0] / t[1] for t in terms if t[1] != 0]
         out["range"]["T", n] = (min(ts), max(ts)) if ts else (0.0, 0.0)
         if any(t[1] < 0 for t in terms):
             # a member in which the nuclide sits mostly in a component of NEGATIVE volume (overlapped bond): the weights
